@@ -263,8 +263,9 @@ def o_c13(kind, case, r):
     dead = {n: e[1] for n, e in r["ents"].items() if e[1] and n[0] in "FP" and n in mine}
     if dead:
         return "file-mode thread/process died: %r" % (dead,)
-    if last["verdict"] not in ("done", "quiescent"):
-        why = "file-mode session ends with %s: parked %r" % (last["verdict"], r.get("parked"))
+    blocked = last["verdict"] == "quiescent" and "M" in r.get("parked", {})    # only the polling loop still runs; the client waits forever
+    if last["verdict"] not in ("done", "quiescent") or blocked:
+        why = "file-mode session ends with %s: parked %r" % ("the client blocked forever" if blocked else last["verdict"], r.get("parked"))
         parked = r.get("parked", {}).get("M")
         if parked and parked[0] == "result":
             # the client waits for a future that never resolves: the duplicate-in-flight defect?
@@ -366,6 +367,10 @@ ASSUME = ["h5py stand-in: a file is an append-only sequence of datasets; create-
           "md5 collision-freeness for the calls considered"]
 
 
+FILE_LOCKSTEP = ("C13", "C14", "C09")
+FX_IMPORTS = ["Base.Dec", "Model.Exec", "Model.ExecShow", "Model.StepExec", "Model.FileExec", "Model.FileShow"]
+
+
 def cache_check(res, pid, cone, extra=None, n_file=(40, 400), n_cache=(30, 300)):
     nf, nc = (n_file[0], n_cache[0]) if res.tier == "quick" else (n_file[1], n_cache[1])
     with core.Lock():
@@ -396,6 +401,40 @@ def cache_check(res, pid, cone, extra=None, n_file=(40, 400), n_cache=(30, 300))
     if corpus:
         rs = lockstep.run_cases([c for _, c in corpus])
         runs = [(k, c, r) for (k, c), r in zip(corpus, rs)] + runs
+    # lockstep: the file-mode runs (and extra programs over the whole client alphabet) replayed on Model/FileExec.v
+    fx_div, fx_n = [], 0
+    if pid in FILE_LOCKSTEP:
+        fx_cases = []
+        for _ in range(nf):
+            c = lockstep.gen_fexec_case(res.rng)
+            c["schedule"] = lockstep.gen_schedule(res.rng, 3000)
+            c["step_limit"] = 3000
+            fx_cases.append(c)
+        fx_rs = lockstep.run_cases(fx_cases)
+        fx_runs = [(c, r) for c, r in zip(fx_cases, fx_rs)] + [(c, r) for k, c, r in runs if k == "file" and lockstep.fexec_lockstep_ok(c)]
+        fx_ok = [(c, r) for c, r in fx_runs if r.get("verdict") in ("done", "deadlock", "quiescent") and "sessions" in r]
+        fx_harness = [r for c, r in fx_runs if r.get("verdict") in ("harness-error", "harness-timeout", "harness-stall")]
+        with core.Lock():
+            try:
+                outs = core.eval_strings(FX_IMPORTS, [lockstep.coq_expr_fs(c, r) for c, r in fx_ok], "fexec", shard=80)
+                for (c, r), o in zip(fx_ok, outs):
+                    d = lockstep.compare_lines(lockstep.impl_lines_fs(c, r), o, None)
+                    if d:
+                        fx_div.append({"case": {a: b for a, b in c.items() if a != "schedule"}, "divergence": d})
+                fx_n = len(fx_ok)
+            except core.CaseEvalError as ex:
+                pr["ok"] = False
+                pr["broken"].append({"kind": "case-eval", "error": str(ex)[-1000:]})
+        res.cov["file_lockstep"] = {"traces_compared": fx_n, "divergences": len(fx_div),
+                                    "multi_session": sum(1 for c, r in fx_ok if len(c.get("sessions", [])) > 1),
+                                    "with_crash": sum(1 for c, r in fx_ok if crashed(c)),
+                                    "steps": sum(len(r["trace"]) for c, r in fx_ok)}
+        if fx_div:
+            pr["ok"] = False
+            pr["broken"].append({"kind": "file-lockstep", "error": fx_div[:2]})
+        if fx_harness:
+            pr["ok"] = False
+            pr["broken"].append({"kind": "harness", "error": [(r.get("error") or "")[-300:] for r in fx_harness[:2]]})
     oracle = ORACLES[pid]
     fails, hits, harness = [], {}, []
     for k, c, r in runs:
